@@ -158,14 +158,12 @@ void SolutionWriterImpl<Solver, PB, Writer>::HandleSolution(
     auto kindO = mp::suf::Kind( suf::OBJ | suf::OUTPUT | suf::OUTONLY );
     builder_.AddIntSuffix("nsol", kindP, 0).
         SetValue(0, num_solutions_);
+    builder_.AddIntSuffix("nsol", kindO, 0).
+        SetValue(0, num_solutions_);
     builder_.AddIntSuffix("npool", kindP, 0).
         SetValue(0, num_solutions_);
-    if (builder_.num_objs() > 0) {        // objective suffixes need one
-      builder_.AddIntSuffix("nsol", kindO, 0).
-          SetValue(0, num_solutions_);
-      builder_.AddIntSuffix("npool", kindO, 0).
-          SetValue(0, num_solutions_);
-    }
+    builder_.AddIntSuffix("npool", kindO, 0).
+        SetValue(0, num_solutions_);
   }
   SolutionAdapter<PB> sol(
         status, &builder_, message.c_str(), options_,
